@@ -85,7 +85,7 @@ func vCheckC01(out *vOutcome) []vViol {
 	return vs
 }
 
-var vProfileC01 = vProfile{name: "c01", blockLoads: true, queueFull: 0, multiGPU: 15, optVariants: true, lateLoad: 100, pingCancel: 60}
+var vProfileC01 = vProfile{name: "c01", blockLoads: true, queueFull: 0, multiGPU: 15, optVariants: true, lateLoad: 100, pingCancel: 60, busyPingFail: 50}
 
 func vRunSched(t *testing.T, prop string, profile vProfile, nQuick, nThorough int, rule string,
 	check func(h *vHistory, out *vOutcome) []vViol) {
@@ -139,6 +139,14 @@ func vRunSched(t *testing.T, prop string, profile vProfile, nQuick, nThorough in
 			}
 			if out.Inconcl != "" {
 				rep.Inconclusive(fmt.Sprintf("history %d: %s", i, out.Inconcl))
+				// the history did not come to an end, but what its event log shows did happen (the snapshot is taken
+				// before the world is torn down): safety clauses over the recorded order are still decided
+				if prop == "C01" {
+					for _, v := range check(h, out) {
+						rep.Violate(v.Sig+":history-did-not-end", v.What+" (the history then neither ended nor came to rest within the watchdog: "+out.Inconcl[:min(len(out.Inconcl), 300)]+")", h, map[string]any{"events": v.Events})
+					}
+					rep.Count("unfinished_histories_checked_for_safety", 1)
+				}
 				continue
 			}
 			vs := check(h, out)
@@ -174,6 +182,6 @@ func vRunSched(t *testing.T, prop string, profile vProfile, nQuick, nThorough in
 
 func TestVerifC01(t *testing.T) {
 	vRunSched(t, "C01", vProfileC01, 400, 40000,
-		"history i = PRNG(seed,'C01',i): 2-5 models, 1-8 client goroutines, 3-40 actions (requests with keep-alive in {0,0.2,1,5,20 ms,forever,nil}, holds, cancels before reply, clients that leave during the scheduler's health check of a loaded runner (cancel_in_ping; 6-10 % of histories are a dedicated scenario that must drain through the keep-alive timers alone), scripted load ok/fail/block-until-cancel, explicit unloads, sleeps), MAX_LOADED 1-3/auto, ping failures, delays at 20 slog call sites and in mock Ping/Close/WaitUntilRunning, GOMAXPROCS in {1,2,4,8,16}. Oracle on the boundary event log: no Close between grant and release, at most one Close per runner, no grant after Close / of an unloaded runner. Non-trivial & distinct = distinct abstract order signature (collapsed sequence of grant/release/close/start/unload/fail/cancel/error kinds) of histories with more than 6 such transitions or with an explicit unload issued while a grant was outstanding",
+		"history i = PRNG(seed,'C01',i): 2-5 models, 1-8 client goroutines, 3-40 actions (requests with keep-alive in {0,0.2,1,5,20 ms,forever,nil}, holds, cancels before reply, clients that leave during the scheduler's health check of a loaded runner (cancel_in_ping; 6-10 % of histories are a dedicated scenario that must drain through the keep-alive timers alone), health checks that fail while the runner is busy with another request (4-5 % of histories are a dedicated scenario: A holds the runner, B asks for the model with keep_alive 0 and keeps it longer than A, the health check made for B fails once), scripted load ok/fail/block-until-cancel, explicit unloads, sleeps), MAX_LOADED 1-3/auto, ping failures, delays at 20 slog call sites and in mock Ping/Close/WaitUntilRunning, GOMAXPROCS in {1,2,4,8,16}. Oracle on the boundary event log: no Close between grant and release, at most one Close per runner, no grant after Close / of an unloaded runner. Non-trivial & distinct = distinct abstract order signature (collapsed sequence of grant/release/close/start/unload/fail/cancel/error kinds) of histories with more than 6 such transitions or with an explicit unload issued while a grant was outstanding",
 		func(h *vHistory, out *vOutcome) []vViol { return vCheckC01(out) })
 }
